@@ -158,6 +158,30 @@ NUMERIC = [
 ]
 
 
+def _based_literals():
+    """Integer literals in base 16 / 8 / 2 of every digit count up to past 64 bits, with the smallest and the
+    largest leading digit, and decimal integers around 2^31, 2^32, 2^53, 2^63, 2^64: whatever the compiler
+    accepts must denote exactly that integer (a literal it cannot represent has to be rejected, not altered)."""
+    out = []
+    for prefix, base, digits, maxn in (("0x", 16, "0123456789abcdef", 18), ("0o", 8, "01234567", 24), ("0b", 2, "01", 66)):
+        for n in range(1, maxn + 1):
+            for lead in (digits[1], digits[-1]):
+                for fill in (digits[0], digits[-1]):
+                    body = lead + fill * (n - 1)
+                    out.append((prefix + body, int(body, base)))
+        out.append((prefix + "DEADBEEF".lower()[:8] * 2 if base == 16 else prefix + digits[-1] * 3, int(("deadbeef" * 2) if base == 16 else digits[-1] * 3, base)))
+    for p in (31, 32, 53, 63, 64):
+        for d in (-1, 0, 1):
+            v = 2 ** p + d
+            out.append((str(v), v))
+    out.append(("0xDEADBEEFDEADBEEF", 0xDEADBEEFDEADBEEF))
+    out.append(("0XFF", 255))
+    return out
+
+
+NUMERIC = NUMERIC + _based_literals()
+
+
 def judge_number(w, text, val, dialect, do_exec):
     out = []
     src = "from t | select {x = %s}" % text
@@ -309,7 +333,11 @@ def _shard(seed, shard, strings, tier):
                     if key in seen:
                         continue
                     seen.add(key)
-                    viols.append({"property": "C08", "symptom": sym, "shape": "%s/number/%s" % (dialect, "float" if isinstance(val, float) else "int"),
+                    ncls = "float" if isinstance(val, float) else "int"
+                    if ncls == "int" and not isinstance(val, bool):
+                        base = {"0x": "hex", "0o": "oct", "0b": "bin"}.get(text[:2].lower(), "dec")
+                        ncls = "int:%s:%s" % (base, "fits_i64" if -2 ** 63 <= val < 2 ** 63 else "over_i64")
+                    viols.append({"property": "C08", "symptom": sym, "shape": "%s/number/%s" % (dialect, ncls),
                                   "witness": {"kind": "number", "text": text, "value": val, "dialect": dialect}, "detail": det})
     w.close()
     obs["classes"] = [list(c) for c in obs["classes"]]
